@@ -565,6 +565,87 @@ def have_lambda_primpow():
     return _HAVE.get("lambda_primpow", False)
 
 
+# ------------------------------------------------------------------------------------------------ size thresholds
+# "Wrong only above a size that doubles / machine words impose": moduli and operands at 2^53 (double mantissa), 2^64, 2^128 (words)
+# and 2^1023, 2^1024, 2^1025 (range of double: mpz_get_d overflows to +inf at 2^1024).  The primes next to the thresholds, one per
+# class mod 16 from each side, come from a table that is RE-VERIFIED on every run (Miller-Rabin, 20 bases; searched again when
+# an entry fails); the Proth primes c 2^s + 1 beyond 2^1024 are proved prime by their witness.  Deterministic, appended last.
+THRESH_TABLE = {53: {1: (-111, 177), 3: (-429, 387), 5: (-315, 5), 7: (-265, 119), 9: (-231, 41), 11: (-421, 75), 13: (-339, 797), 15: (-145, 287)},
+                1023: {1: (-14959, 3953), 3: (-2925, 1155), 5: (-14635, 1493), 7: (-361, 1863), 9: (-4071, 8745), 11: (-5029, 11435), 13: (-1395, 2381), 15: (-2481, 1583)},
+                1024: {1: (-15039, 2113), 3: (-10157, 643), 5: (-10139, 12757), 7: (-105, 5335), 9: (-6615, 1081), 11: (-1397, 2715), 13: (-179, 19693), 15: (-5025, 3711)},
+                1025: {1: (-6543, 5745), 3: (-20733, 4211), 5: (-4843, 2981), 7: (-4425, 11687), 9: (-11431, 1481), 11: (-3925, 31035), 13: (-8611, 12909), 15: (-2673, 2255)}}
+PROTH_BIG = {1021: 993, 1024: 1125, 1030: 225}
+TH = {"counts": {}, "primes": 0, "table_entries_re_searched": 0}
+
+
+def gen_thresholds(C, rng, th):
+    n0 = len(C)
+    TH["counts"] = {}; TH["primes"] = 0; TH["table_entries_re_searched"] = 0
+
+    def add(iop, iargs, kind, **kw):
+        C.append(mk(iop, iargs, kind, gen="threshold", nomodel=True, **kw))
+        TH["counts"][iop] = TH["counts"].get(iop, 0) + 1
+    # ---- Integer helpers across the thresholds
+    for k in (1, 2, 31, 32, 33, 52, 53, 54, 63, 64, 65, 127, 128, 129, 1021, 1022, 1023, 1024, 1025, 1026, 2047, 2048, 2049, 4096):
+        for a in ((1 << k) - 1, 1 << k, (1 << k) + 1, 3 << k):
+            add("logtwo", [a], "h_logtwo", a=a)
+            add("naturallog", [a], "h_logtwo", a=a)
+            for f in ("length", "bitsize", "size"):
+                add(f, [a], "h_size", a=a)
+        for a in (1 << k, (1 << k) + 1, ((1 << k) - 1) ** 2, (3 << k) ** 3, 7 ** k if k < 600 else 49):
+            add("isperfectpower", [a], "h_ipp", a=a)
+    for k in (1, 2, 3, 52, 53, 63, 64, 65, 1023, 1024, 1025):       # the draws sqrootmodprime sizes with l = ceil(logtwo(p) - 1)
+        add("nonzerorandom.bits", [k], "h_nzr", a=k)
+    for a in (0, 1, 2, 3):
+        for f in ("length", "bitsize", "size"):
+            add(f, [a], "h_size", a=a)
+        add("isperfectpower", [a], "h_ipp", a=a)
+    # ---- primes next to 2^53, 2^1023, 2^1024, 2^1025 (2^32, 2^64, 2^128 are in the group `edge`)
+    plist = []
+    for B in (53, 1023, 1024, 1025):
+        for cls in (1, 3, 5, 7, 9, 11, 13, 15):
+            for up in (False, True):
+                if not th and (B == 1023 or (B == 1025 and not up)):      # quick: both sides of 2^53 and 2^1024, above 2^1025
+                    continue
+                q = (1 << B) + THRESH_TABLE[B][cls][1 if up else 0]
+                if not (q % 16 == cls and is_prime(q) and (q > (1 << B)) == up):
+                    q = edge_prime(B, cls, up); TH["table_entries_re_searched"] += 1
+                plist.append((q, None))
+    for s_, c_ in PROTH_BIG.items():
+        q = c_ * (1 << s_) + 1
+        if not (is_prime(q) and proth_witness(q)):
+            c_, q = proth_prime(s_); TH["table_entries_re_searched"] += 1
+        plist.append((q, s_))
+    for q, s_ in plist:
+        TH["primes"] += 1
+        _FC[q] = {q: 1}
+        nr = next(x for x in range(2, 500) if pow(x, (q - 1) // 2, q) == q - 1)
+        s2 = val(q - 1, 2); z = pow(nr, (q - 1) >> s2, q)          # generator of the 2-Sylow subgroup: a non-residue
+        for a in (4, q - 1, z) + ((z * z % q, 9 - q) if th else ()):
+            add("sqrootmodprime", [a, q], "sqrtp", a=a, p=q, k=1)
+        add("sqrootmod", [z * z % q, q], "sqrtn", a=z * z % q, n=q, F={q: 1})
+        if th:
+            add("sqrootmod", [4, q], "sqrtn", a=4, n=q, F={q: 1})
+            add("sqrootmodprimepower", [q * q - 4 * q + 4, q, 2], "sqrtpk", a=q * q - 4 * q + 4, p=q, k=2)
+        if q % 4 == 1:
+            add("brillhart", [q], "brillhart", p=q)
+        for kk in (3, nr) + ((-1,) if th else ()):
+            add("sumofsquares.det", [kk, q], "sos", k=kk, p=q)
+        if th:
+            add("sumofsquares.mc", [nr, q], "sos", k=nr, p=q)
+        add("legendre", [z, q], "legendre", a=z, b=q)
+        if s_ is not None:                                    # p - 1 = c 2^s factors at once: order / primitive roots are feasible
+            _FC[q - 1] = factor(q - 1)
+            for a in (q - 1, z, nr, 2):
+                add("order", [a, q], "order", a=a, n=q)
+            add("is_prim_root", [nr, q], "is_prim_root", a=nr, n=q)
+            add("prim_root_of_prime", [q], "prim_root_of_prime", n=q)
+            add("prim_root", [q], "prim_root", n=q)
+            add("lambda", [q], "lambda", n=q)
+            add("phi", [q], "phi", n=q)
+    TH["total"] = len(C) - n0
+
+
 # ------------------------------------------------------------------------------------------------ in-place calls
 # Every function of the property with an output parameter is called with the output being THE SAME OBJECT as each input in
 # turn (harness: `op@i` first output = input i, `op@@i` second output = input i, i = 9: the modulus object pk), on a deterministic
@@ -1024,6 +1105,7 @@ def gen_cases(rng, tier, have):
                 C.append(mk("root", [a, e], "iroot", a=a, e=e))
     gen_structured(C, rng, th)
     gen_inplace(C, rng, th)
+    gen_thresholds(C, rng, th)
     return C
 
 
@@ -1180,6 +1262,18 @@ def spec(c, out, small_cache):
     if k == "iroot":
         s = iroot(c["a"], c["e"]); ex = 1 if s ** c["e"] == c["a"] else 0
         return ints(t[:2]) == [s, ex], [s, ex], "root", "n=%d" % c["e"]
+    if k == "h_logtwo":
+        v = float(t[0]); exp = math.log2(c["a"]) if bop(c) == "logtwo" else math.log(c["a"])
+        return (v == v and abs(v - exp) <= 1e-9 * max(1.0, abs(exp))), "%.12g" % exp, bop(c), "bits<=1024" if c["a"].bit_length() <= 1024 else "bits>1024"
+    if k == "h_size":
+        a = c["a"]; limbs = (a.bit_length() + 63) // 64
+        exp = {"length": 8 * limbs, "size": limbs, "bitsize": max(1, a.bit_length())}[bop(c)]
+        return int(t[0]) == exp, exp, bop(c), "helper"
+    if k == "h_ipp":
+        a = c["a"]; exp = 1 if a in (0, 1) or any(iroot(a, e) ** e == a for e in range(2, a.bit_length() + 1)) else 0
+        return int(t[0]) == exp, exp, "isperfectpower", "helper"
+    if k == "h_nzr":
+        return t[0] == "1" * 8 and 1 <= int(t[1]) <= c["a"], "8 draws in [1, 2^k)", "Integer::nonzerorandom", "bits"
     if k == "h_gcd":
         exp = math.gcd(c["a"], c["b"]); return int(t[0]) == exp, exp, "IntegerDom::gcd", "helper"
     if k == "h_powmod":
@@ -1193,7 +1287,7 @@ def spec(c, out, small_cache):
 
 UNJUDGED = []              # cases the oracle could not judge (reported under coverage.inconclusive, never silently passed)
 MIN_THEOREMS = 47          # Properties.v as of phase 4: fewer re-checked theorems than this is a floor miss
-NO_MODEL = {"isqrt", "isqrtrem", "iroot", "h_gcd", "h_powmod", "h_inv", "h_invin", "h_mod"}
+NO_MODEL = {"isqrt", "isqrtrem", "iroot", "h_logtwo", "h_size", "h_ipp", "h_nzr", "h_gcd", "h_powmod", "h_inv", "h_invin", "h_mod"}
 
 
 def model_line(c, out):
@@ -1648,11 +1742,11 @@ def main(tier, replay=None):
     dnr = [i for i, o in enumerate(iout) if o is not None and o.startswith("DOES-NOT-RETURN")]
     slow = []
     for i in dnr[:3]:
-        ok1, o1, e1 = run_parallel(himpl, [ilines[i]], nproc=1, timeout=900, restarts=0, env={"C13_CPU_BUDGET": "60"})
+        ok1, o1, e1 = run_parallel(himpl, [ilines[i]], nproc=1, timeout=900, restarts=0, env={"C13_CPU_BUDGET": "30"})
         if o1 and o1[0] is not None and not o1[0].startswith(("DOES-NOT-RETURN", "CRASH")):
             iout[i] = o1[0]; slow.append(ilines[i][:120])
         elif o1 and o1[0] is not None and o1[0].startswith("DOES-NOT-RETURN"):
-            iout[i] = "DOES-NOT-RETURN cpu>60s"
+            iout[i] = "DOES-NOT-RETURN cpu>30s"
         else:
             iout[i] = None                     # the re-run itself was cut by the wall clock: inconclusive for this case, not a verdict
             inconclusive.append("re-run of `%s` alone gave no answer within the wall-clock limit" % ilines[i][:120])
@@ -1768,6 +1862,13 @@ def main(tier, replay=None):
                                          "input i, op@@i: second output, 9 = the modulus object pk); deterministic grid of primes, prime powers, 2^k, composites "
                                          "with 2..4 prime powers, residues and non-residues; verdict = oracle on the original arguments + model + (deterministic "
                                          "functions) equality with the distinct-objects call"}
+    chk.cov["size_thresholds"] = {"cases": TH.get("total", 0), "primes": TH.get("primes", 0), "cases_per_form": TH.get("counts", {}),
+                                  "table_entries_re_searched": TH.get("table_entries_re_searched", 0),
+                                  "rule": "Integer helpers (logtwo, naturallog, length, bitsize, size, isperfectpower) on 2^k - 1, 2^k, 2^k + 1, 3 2^k for k at 32, 53, "
+                                          "64, 128, 1023, 1024, 1025, 2048, 4096; the primes next to 2^53, 2^1023, 2^1024, 2^1025 from both sides in every class "
+                                          "mod 16 (table re-verified by Miller-Rabin on every run) and the Proth primes 993 2^1021 + 1, 1125 2^1024 + 1, 225 2^1030 + 1 "
+                                          "(proved by witness): sqrootmodprime (4, -1, 2-Sylow generator and its square, negative), sqrootmod, p^2, Brillhart, "
+                                          "sums of squares, legendre; order / is_prim_root / prim_root / prim_root_of_prime / lambda / phi on the Proth ones"}
     chk.cov["structured_moduli"] = {"primes_c2^s+1": STRUCT.get("primes", []), "cases_per_group_and_form": STRUCT.get("counts", {}),
                                     "total": STRUCT.get("total", 0),
                                     "rule": "deterministic on every run and for every seed: least-c Proth primes c*2^s+1 for s around 32/64/128/192 (primality PROVED "
